@@ -5,7 +5,7 @@
    parse_bib (render layout d) = denote d is NOT proved: it is checked on every run by the
    correspondence run and the oracle denote_py (harness/props/c01.py). *)
 From Pybtex Require Import Base.Prelude Base.PyChar Base.PyStr Model.BibtexStr Model.Names
-  Model.Scanner Model.BibParser Proofs.BibValues Proofs.BibEntry.
+  Model.Scanner Model.BibParser Proofs.BibValues Proofs.BibEntry Proofs.BibFile.
 
 (* values are whitespace-normalised: normalize_whitespace(s) is exactly the
    whitespace-separated words of s joined by single spaces (all 29 whitespace code points,
@@ -42,35 +42,55 @@ Proof. exact value_roundtrip_general. Qed.
 Print Assumptions value_roundtrip.
 
 (* ENTRY ROUND TRIP (low level): after the '@', an entry written as
-     ws type ws ( '{' | '(' ) ws key ws ',' [field ',' ... field] [','] ws ( '}' | ')' )
+     ws type ws ( '{' | '(' ) ws key ws [ ',' [field ',' ... field] [','] ws ] ( '}' | ')' )
    -- type a NAME other than string/preamble/comment in any letter case, key any key of the
-   delimiter's key pattern, each field  ws name ws '=' value  with value as above, optional
-   trailing comma, any whitespace (CR LF included) between tokens -- is read by parse_command
-   as exactly (type as written, key, [(name as written, list of part values)] in source
-   order), reports nothing, and leaves the scanner right behind the closing delimiter.
-   PARTIAL: the comma after the key is required here (the spelling '@a{k}' is not covered);
-   author/editor splitting, normalisation and duplicates are the process-level theorems. *)
-Theorem entry_roundtrip_partial : forall m st brace ws0 typ ws1 ws2 key wsk fs trailing wsend rest,
+   delimiter's key pattern, each field  ws name ws '=' value  with value as in value_roundtrip,
+   optional trailing comma, any whitespace (CR LF included) between tokens; both spellings
+   '@a{k, ...}' and '@a{k}' (for '@a(k )' the key must be followed by whitespace) -- is read by
+   parse_command as exactly (type as written, key, [(name as written, list of part values)])
+   in source order, reports nothing, and leaves the scanner right behind the closing
+   delimiter. *)
+Theorem entry_roundtrip : forall m st brace ws0 typ ws1 ws2 key wsk comma fs trailing wsend rest,
   forallb is_space ws0 = true -> forallb is_space ws1 = true -> forallb is_space ws2 = true ->
   forallb is_space wsk = true -> forallb is_space wsend = true ->
   is_entry_type typ = true -> is_key brace key = true -> Forall (wf_sfield (p_macros st)) fs ->
-  sc_rest (p_sc st) = entry_text brace ws0 typ ws1 ws2 key wsk fs trailing wsend rest ->
+  (comma = false -> fs = [] /\ (brace = true \/ wsk <> [])) ->
+  sc_rest (p_sc st) = entry_text_gen brace ws0 typ ws1 ws2 key wsk comma fs trailing wsend rest ->
   exists st', parse_command m st = Ret (Some (CEntry typ (Some key) (map (field_result (p_macros st)) fs))) st'
     /\ sc_rest (p_sc st') = rest /\ p_errs st' = p_errs st /\ p_macros st' = p_macros st.
-Proof. exact entry_reads. Qed.
-Print Assumptions entry_roundtrip_partial.
+Proof. exact entry_reads_gen. Qed.
+Print Assumptions entry_roundtrip.
 
-(* FILE ROUND TRIP (low level): a file that is a sequence of such entries, each preceded by
-   whitespace, followed by whitespace, is read by list(LowLevelParser(text)) as exactly the
-   list of those entries, without any error -- for every choice of delimiters, quoting,
-   concatenation splits, letter case and whitespace.  PARTIAL: no junk text, no @string /
-   @preamble / @comment items (macros are the months), comma after each key; the step from
-   the command list to the database is covered by field_order ... preamble_collected. *)
-Theorem file_roundtrip_partial : forall m es tail,
-  Forall (wf_sentry month_macros) es -> forallb is_space tail = true ->
-  exists st', lowlevel m (file_text es tail) = Ret (map (entry_cmd month_macros) es) st' /\ p_errs st' = [].
-Proof. exact file_lowlevel. Qed.
+(* FILE ROUND TRIP: a file is a sequence of items -- entries (as above), @string definitions,
+   @preamble items, @comment items (keywords in any letter case, either delimiter) -- each
+   preceded by arbitrary junk text without '@', and followed by junk without '@'; macros may
+   be defined, redefined and used (any letter case) later in the file, the months are
+   predefined.  Reading the rendering in capture mode returns a database whose entries
+   (key, lower-cased type, written type, fields, persons) and preamble are exactly what the
+   items denote ([denote_items]: @string only extends the macro table; @preamble appends the
+   normalised concatenation; an entry whose key is new ignoring case is appended with the
+   first field of each name ignoring case, in source order, parts concatenated and
+   whitespace-normalised; a repeated key changes nothing).
+   PARTIAL: the domain excludes author / editor fields ([plain_file]; person splitting is C04
+   and is covered by the tie), and says nothing about which problems are reported. *)
+Theorem file_roundtrip_partial : forall items tail,
+  wf_file month_macros items -> plain_file month_macros items -> no_at tail ->
+  exists d s, parse_bib Capture (file_text2 items tail) = Ret d s /\ view d = denote_items month_macros items ([], []).
+Proof. exact file_roundtrip_lemma. Qed.
 Print Assumptions file_roundtrip_partial.
+
+(* SURFACE INDEPENDENCE (same domain): two files whose items denote the same database -- whatever
+   their delimiters, quoting, concatenation splits, letter case of keywords and macro uses,
+   whitespace and line ends, trailing commas, junk text and @comment items -- are read as the
+   same database *)
+Theorem surface_independence_partial : forall items1 tail1 items2 tail2,
+  wf_file month_macros items1 -> plain_file month_macros items1 -> no_at tail1 ->
+  wf_file month_macros items2 -> plain_file month_macros items2 -> no_at tail2 ->
+  denote_items month_macros items1 ([], []) = denote_items month_macros items2 ([], []) ->
+  exists d1 s1 d2 s2, parse_bib Capture (file_text2 items1 tail1) = Ret d1 s1 /\
+                      parse_bib Capture (file_text2 items2 tail2) = Ret d2 s2 /\ view d1 = view d2.
+Proof. exact surface_independence_lemma. Qed.
+Print Assumptions surface_independence_partial.
 
 (* FIELD ORDER: fields (other than author/editor) whose names differ pairwise ignoring case
    are all kept, in source order, under the spelling they were written with, each value
@@ -126,26 +146,38 @@ Proof. exact preamble_collected_lemma. Qed.
 Print Assumptions preamble_collected.
 
 (* non-vacuity / examples *)
-Definition ex_entry : sentry :=
-  mkSentry (s2l "
-") false (s2l " ") (s2l "Book") [] (s2l " ") (s2l "k:1") []
-    [ (s2l "
-  ", s2l "Title", s2l " ", [ (s2l " ", SDelim true (s2l "A {B}"), s2l " "); ([], SMacro (s2l "JAN"), []); (s2l "
- ", SNumber (s2l "12"), s2l " ") ]) ] true (s2l "
-") .
-Example ex_entry_wf : Forall (wf_sentry month_macros) [ex_entry]
-  /\ file_text [ex_entry] (s2l "
-") = s2l "
-@ Book( k:1,
-  Title = ""A {B}"" #JAN#
- 12 ,
-)
+Definition ex_items : list (str * sitem) :=
+  [ (s2l "junk, ", IString true [] (s2l "STRING") [] (s2l " ") (s2l "mm") (s2l " ") [ ([], SDelim true (s2l "Em"), []) ]);
+    (s2l "
+", IComment true [] (s2l "Comment") []);
+    (s2l " ignored } text ", IEntry false (s2l " ") (s2l "Book") [] (s2l " ") (s2l "k:1") [] true
+        [ (s2l "
+  ", s2l "Title", s2l " ", [ (s2l " ", SDelim true (s2l "A  {B}"), s2l " "); ([], SMacro (s2l "MM"), []); (s2l "
+ ", SNumber (s2l "12"), s2l " ") ]);
+          ([], s2l "TITLE", [], [ ([], SMacro (s2l "jan"), []) ]) ] true (s2l "
+"));
+    (s2l " % ", IEntry true [] (s2l "misc") [] [] (s2l "K:1") [] false [] false []);
+    ([], IPreamble true [] (s2l "preamble") [] [ ([], SDelim false (s2l " p  q "), []) ]);
+    ([], IEntry true [] (s2l "misc") [] [] (s2l "k2") [] false [] false []) ].
+Example ex_file :
+  file_text2 ex_items (s2l "
+") = s2l "junk, @STRING{ mm =""Em""}
+@Comment{ ignored } text @ Book( k:1,
+  Title = ""A  {B}"" #MM#
+ 12 ,TITLE=jan,
+) % @misc{K:1}@preamble{{ p  q }}@misc{k2}
 "
-  /\ map (entry_cmd month_macros) [ex_entry]
-     = [CEntry (s2l "Book") (Some (s2l "k:1")) [(s2l "Title", [s2l "A {B}"; s2l "January"; s2l "12"])]].
+  /\ denote_items month_macros ex_items ([], [])
+     = ([ (s2l "k:1", s2l "book", s2l "Book", [(s2l "Title", s2l "A {B}Em12")], []);
+          (s2l "k2", s2l "misc", s2l "misc", [], []) ], [s2l "p q"]).
+Proof. vm_compute. split; reflexivity. Qed.
+Example ex_file_wf : wf_file month_macros ex_items /\ plain_file month_macros ex_items.
 Proof.
-  split; [|split; vm_compute; reflexivity].
-  repeat constructor; try reflexivity; cbn; congruence.
+  split.
+  - cbn [wf_file ex_items]. unfold no_at, sp.
+    repeat split; try reflexivity; try discriminate; try (intros x Hx; cbn in Hx; repeat (destruct Hx as [<-|Hx]; [reflexivity|]); contradiction);
+      try (repeat constructor; try reflexivity; try discriminate; cbn; congruence); try (intros H; discriminate H); auto.
+  - cbn. unfold plain_item, plain_fields. cbn. repeat split; auto; intros f Hf; repeat (destruct Hf as [<-|Hf]; [reflexivity|]); contradiction.
 Qed.
 Example ex_normalize : normalize_whitespace (s2l "  two   words
  next ") = s2l "two words next".
